@@ -1316,7 +1316,8 @@ fn check_call(kind: &str, max: usize, c: &CallRec, what: &str, sniffer_dependent
     // lower bounds of the instants the client sent each attempt: it moves on when it has seen the
     // node's action (after the node read the request) or when its timeout fired
     let mut refs = Vec::with_capacity(n);
-    let mut r = c.t0;
+    // (an attempt on a dead cached client fails at once and is followed by the retry delay)
+    let mut r = c.t0 + if c.pre_conn && !reused { c.delay } else { Duration::ZERO };
     for x in &c.contacts {
         refs.push(r);
         r = match (x.beh, x.via) {
@@ -2468,7 +2469,7 @@ fn main() {
     out.extra.insert("sniffer".into(), serde_json::json!(env.sniffer.is_some()));
     out.extra.insert("node_timeout_ms".into(), serde_json::json!(T_NODE.as_millis() as u64));
     out.extra.insert("retry_delay_ms".into(), serde_json::json!(DELAY.as_millis() as u64));
-    out.rule = "case = fresh Fleet/AsyncFleet + one scripted node: calls until the script is consumed (at most 2*len+1), then a healthy phase of up to 3 calls; all behaviour sequences over the 7-letter alphabet up to length max+2 (quick: max 1 up to length 3, max 2 up to length 4, max 3 up to length 3 + 300 sampled sequences of length 4-5; thorough: max 1..3 up to length max+2, exhaustive), both fleets, call variants json/jsonnp/msg in rotation (thorough: all three for max 1,2); life = every sequence (length 1-3) of connect_all / disconnect_all / reconnect_disconnected / health_check / call against node scripts of length <= 2 without silent (quick: 8 sampled scripts each; thorough: all 43), then the healthy phase; bc / mr (map_reduce_json) = every assignment of tag subsets to up to 3 (thorough 4) nodes x every requested subset (+ one duplicated tag), every 7th with a refusing node, every 5th with a node that is silent on every attempt, every 11th with a node answering an application error. Distinct by op line; non-trivial = a call retried, hit a dead cached client, or returned an error / a broadcast that selects a proper non-empty subset or has a refusing node".into();
+    out.rule = "case = fresh Fleet/AsyncFleet + one scripted node: calls until the script is consumed (at most 2*len+1), then a healthy phase of up to 3 calls; all behaviour sequences over the 7-letter alphabet up to length max+2 (quick: max 1 up to length 3, max 2 up to length 4, max 3 up to length 3 + 300 sampled sequences of length 4-5; thorough: max 1..3 up to length max+2, exhaustive) + sampled sequences up to length 6 for max_attempts 4, 5, 8, 64 (quick 150, thorough 600) + 12 cases through Fleet::new / AsyncFleet::new (default options), both fleets, call variants json/jsonnp/msg in rotation (thorough: all three for max 1,2); life = every sequence (length 1-3) of connect_all / disconnect_all / reconnect_disconnected / health_check / call against node scripts of length <= 2 without silent (quick: 8 sampled scripts each; thorough: all 43), then the healthy phase; bc / mr (map_reduce_json) = every assignment of tag subsets to up to 3 (thorough 4) nodes x every requested subset, each subset also reversed and with a repeat, one duplicated tag, a tag no node carries; every 7th with a refusing node, every 5th with a node that is silent on every attempt, every 11th with a node answering an application error; after the judged broadcast every node is healthy and the same fleet is used again through the twin entry point (after a panicking reducer in some mr cases) and, in about a fifth of the cases, after remove_node / add_node; opts = what the constructors must refuse (max_attempts 0, duplicate names at construction and at add_node). Two cases in three carry a word p= with drawn values of the parameters the property does not depend on (distribution: param.*). Distinct by op line; non-trivial = a call retried, hit a dead cached client, or returned an error / a broadcast that selects a proper non-empty subset or has a refusing node".into();
     let mut ops: Vec<String> = match args.replay_ops() {
         Some(ops) => ops,
         None => gen_cases(&mut rng, args.thorough()),
